@@ -267,8 +267,13 @@ func (l *Gsub2_1) apply(ctx *Context, a, b int) int {
 	}
 
 	repl := l.Repl[idx]
-	seq[a].GID = repl[0]
 	k := len(repl)
+	if k == 0 {
+		// Empty sequences are forbidden by the specification, but the
+		// reader delivers them.  Deleting the glyph would lose its text.
+		return -1
+	}
+	seq[a].GID = repl[0]
 	if k > 1 {
 		// insert k-1 new glyphs after position a
 		seq = slices.Grow(seq, k-1)
